@@ -7,6 +7,7 @@ structure St where
   cal : Cal
   utcOffset : Int
   ts : Option TS
+  ranges : List (Int × Int × Int)
 
 def parseMode? : String → Option Mode
   | "range" => some .range
@@ -65,13 +66,19 @@ def step (st : St) (toks : List String) : St × List String :=
                         extend := ext == "1", utcOffset := utc, metrics := mos }
       let c := calOfBounds bounds
       let r := getTimescale c a
-      ({ cal := c, utcOffset := utc, ts := r.toOption }, [tsObs r])
+      ({ cal := c, utcOffset := utc, ts := r.toOption, ranges := [] }, [tsObs r])
     | _, _, _, _, _, _, _, _, _ => (st, ["bad-op"])
   | ["lods", off] => match off.toInt?, st.ts with
     | some off, some ts =>
-      (st, ["lods " ++ showList ((getLODs st.cal st.utcOffset ts off).map fun x => s!"{x.1}:{x.2.1}:{x.2.2}")])
+      let rs := getLODs st.cal st.utcOffset ts off
+      ({ st with ranges := rs }, ["lods " ++ showList (rs.map fun x => s!"{x.1}:{x.2.1}:{x.2.2}")])
+    | _, _ => (st, ["bad-op"])
+  | ["ix", j, t] => match j.toNat?, t.toInt? with
+    | some j, some t => match st.ranges[j]? with
+      | some r => (st, [match indexOf st.cal r t with | some n => s!"ix {n}" | none => "ix err"])
+      | none => (st, ["bad-op"])
     | _, _ => (st, ["bad-op"])
   | _ => (st, ["bad-op"])
 
 def main : IO Unit :=
-  Driver.run { init := { cal := calOfBounds [], utcOffset := 0, ts := none }, step := step }
+  Driver.run { init := { cal := calOfBounds [], utcOffset := 0, ts := none, ranges := [] }, step := step }
